@@ -694,7 +694,25 @@ def rule_nsamples_is_asked_the_documented_question(eng, rep, rule="C02-6b.nsampl
             if not ((isinstance(a1, ast.Attribute) and a1.attr == "rho") or (isinstance(a1, ast.Name) and a1.id in rhobeg_names)):
                 probs.append("second argument `%s` is not the lower bound on the radius (.rho)" % short(a1, 30))
             ok2 = const_value(a2) == 0
-            if isinstance(a2, ast.Name) and a2.id not in run_params:
+            if isinstance(a2, ast.Name) and a2.id in fi.all_params and fi.fid != sm.fid:
+                # a helper that is handed the iteration counter: every caller must pass one
+                callers = eng.calls_to(fi.fid)
+                oks = []
+                for cci in callers:
+                    ae = arg_of(eng, cci.node, fi, a2.id)
+                    ccfg = eng.cfg(cci.caller)
+                    good = const_value(ae) == 0 if ae is not None else False
+                    if isinstance(ae, ast.Name) and ae.id not in run_params:
+                        try:
+                            dd = ccfg.defs_reaching(cci.node, ae.id)
+                        except Exception:
+                            dd = []
+                        kk = [(isinstance(ccfg.ast_of(x), ast.Assign) and const_value(ccfg.ast_of(x).value) is not None) or
+                              (isinstance(ccfg.ast_of(x), ast.AugAssign) and isinstance(ccfg.ast_of(x).op, ast.Add) and const_value(ccfg.ast_of(x).value) == 1) for x in dd]
+                        good = bool(kk) and all(kk)
+                    oks.append(good)
+                ok2 = bool(oks) and all(oks)
+            elif isinstance(a2, ast.Name) and a2.id not in run_params:
                 defs = cfg.defs_reaching(eng.prog.stmt_of(node) if cfg.has_ast(eng.prog.stmt_of(node)) else node, a2.id) if hasattr(cfg, "has_ast") else None
                 if defs is None:
                     try:
